@@ -281,6 +281,17 @@ Definition available : str := join (bs ", "%bs) submat_names.
 Definition fnf_message (name : str) : str :=
   bs "No file at "%bs ++ name ++ bs ", available matrices: "%bs ++ available.
 
+(* msg.split(', ') *)
+Fixpoint split_cs (s cur : str) : list str :=
+  match s with
+  | [] => [rev cur]
+  | c :: r => match r with
+              | d :: r2 => if byte_eqb c ","%byte && byte_eqb d " "%byte then rev cur :: split_cs r2 []
+                           else split_cs r (c :: cur)
+              | [] => split_cs r (c :: cur)
+              end
+  end.
+
 Inductive resolution := RPath | RFile (raw : str) | RMissing.
 (* __init__.py:77-82, in this order: if isfile(fname) the argument itself is opened (a user's file wins, whatever its name
    spells); otherwise fname.upper() is looked up among _submat_files(): a hit is opened from the bundled directory,
@@ -396,9 +407,13 @@ Fixpoint word_lines (f : list aline) : list (list str) :=
   | _ :: r => word_lines r
   end.
 (* other line terminators and an optional missing terminator after the last line *)
-Inductive eol := LF | CRLF | CR.
+(* LF, CRLF, CR (universal newlines), and the other line boundaries of str.splitlines below code point 256 *)
+Inductive eol := LF | CRLF | CR | VT | FF | FS | GS | RS | NEL.
 Definition eol_str (e : eol) : str :=
-  match e with LF => [x0a] | CRLF => [x0d; x0a] | CR => [x0d] end.
+  match e with
+  | LF => [x0a] | CRLF => [x0d; x0a] | CR => [x0d]
+  | VT => [x0b] | FF => [x0c] | FS => [x1c] | GS => [x1d] | RS => [x1e] | NEL => [x85]
+  end.
 Fixpoint render_with (e : eol) (final : bool) (f : list aline) : str :=
   match f with
   | [] => []
